@@ -142,7 +142,7 @@ def explore_job(job, deadline):
     res = ex.run()
     audit_ok, audit_bad = 0, []
     for path, hashes in res.samples[:n_audit]:
-        r = explore.replay(scn, path, check=False)
+        r = explore.replay(scn, path, check=True, stop_on_violation=False)
         if r['diverged'] or r['hashes'] != hashes:
             audit_bad.append({'scenario': scn.name, 'path': path,
                               'why': r['diverged'] or 'state hashes differ'})
